@@ -364,12 +364,30 @@ def rule_nesting(ck: Check, repo: Repo) -> None:
     q1 = f"{GL}.NestedReuseTOML._find_relevant_tomls_and_items"
     f1 = repo.func(q1)
     s1 = squash(ast.unparse(f1))
-    from ..rules import has
-    L1 = ["toml", "tomls", "item", "toml_items", "adjusted_path", "relpath"]
-    ok = has(s1, "tomls = self._find_relevant_tomls(adjusted_path)", L1) and \
-        has(s1, "for toml in tomls: relpath = adjusted_path.relative_to(toml.directory) item = toml.find_annotations_item(relpath)"
-                " if item is not None: toml_items.append((toml, item))", L1)
-    r.instance("relevant-items", {"ok": ok})
+    from ..rules import deep_text
+    ok = False
+    detail = {}
+    loops1 = [n for n in f1.body if isinstance(n, ast.For) and isinstance(n.target, ast.Name)]
+    if len(loops1) == 1:
+        lp = loops1[0]
+        lv = lp.target.id
+        adj = "PurePath(self.source) / path"
+        detail["iterates"] = deep_text(f1, lp.iter)
+        apps = [c for c in ast.walk(lp) if isinstance(c, ast.Call) and isinstance(c.func, ast.Attribute) and c.func.attr == "append"
+                and len(c.args) == 1 and isinstance(c.args[0], ast.Tuple) and len(c.args[0].elts) == 2]
+        want_item = f"{lv}.find_annotations_item(({adj}).relative_to({lv}.directory))"
+        if len(apps) == 1:
+            first, second = (deep_text(f1, e) for e in apps[0].args[0].elts)
+            detail["appends"] = [first, second]
+            guards = [n for n in ast.walk(lp) if isinstance(n, ast.If) and apps[0] in list(ast.walk(n))]
+            gtxt = [deep_text(f1, g.test) for g in guards]
+            detail["guards"] = gtxt
+            rets = [deep_text(f1, n.value) for n in ast.walk(f1) if isinstance(n, ast.Return) and n.value is not None]
+            acc = ast.unparse(apps[0].func.value)
+            ok = detail["iterates"] == f"self._find_relevant_tomls({adj})" and first == lv and second == want_item \
+                and gtxt == [f"{want_item} is not None"] and rets == [acc] \
+                and not any(isinstance(n, (ast.Break, ast.Continue)) for n in ast.walk(lp))
+    r.instance("relevant-items", {"ok": ok, **detail})
     if not ok:
         r.violation(q1, "item collection", "every relevant REUSE.toml contributes its matching item, in depth order", repo.loc(f1))
     # walk + override stop
